@@ -27,6 +27,7 @@ type waiter struct {
 }
 
 type chanState struct {
+	hb      hbObj
 	id      int
 	cap     int
 	buf     []msg
@@ -106,6 +107,7 @@ func (x *Exec) doSend(cs *chanState, box interface{}, copyTo func(dst, src inter
 		m := msg{v: box}
 		x.release(&m.vc)
 		cs.buf = append(cs.buf, m)
+		x.hbEvent(&cs.hb, kSend, 0)
 		return
 	}
 	// rendezvous with the first parked receiver
@@ -120,6 +122,7 @@ func (x *Exec) doSend(cs *chanState, box interface{}, copyTo func(dst, src inter
 	w.t.vc.join(cs.syncVC)
 	x.cur.vc.join(w.t.vc)
 	w.t.vc.tick(w.t.id)
+	x.hbPartner(w.t, x.hbEvent(&cs.hb, kSend, 1))
 }
 
 // completeWaiter marks a parked partner's operation as done (it becomes enabled and just returns).
@@ -139,6 +142,7 @@ func (x *Exec) doRecv(cs *chanState, box interface{}, copyTo func(dst, src inter
 	if cs.isTimer {
 		cs.taken = true
 		zero(box)
+		x.hbEvent(&cs.hb, kRecv, 3)
 		return true
 	}
 	if len(cs.buf) > 0 {
@@ -146,6 +150,7 @@ func (x *Exec) doRecv(cs *chanState, box interface{}, copyTo func(dst, src inter
 		cs.buf = cs.buf[1:]
 		copyTo(box, m.v)
 		x.acquire(m.vc)
+		x.hbEvent(&cs.hb, kRecv, 0)
 		return true
 	}
 	if cs.cap == 0 && len(cs.sendq) > 0 {
@@ -156,11 +161,13 @@ func (x *Exec) doRecv(cs *chanState, box interface{}, copyTo func(dst, src inter
 		w.t.vc.join(cs.syncVC)
 		x.cur.vc.join(w.t.vc)
 		w.t.vc.tick(w.t.id)
+		x.hbPartner(w.t, x.hbEvent(&cs.hb, kRecv, 1))
 		return true
 	}
 	if cs.closed {
 		zero(box)
 		x.acquire(cs.closeVC)
+		x.hbEvent(&cs.hb, kRecv, 2)
 		return false
 	}
 	panic("vsched: doRecv on a channel that is not ready")
@@ -298,6 +305,7 @@ func (o ChanOps[T]) Close() {
 	x.tracef("close %s", cs)
 	cs.closed = true
 	x.release(&cs.closeVC)
+	x.hbEvent(&cs.hb, kClose, 0)
 }
 
 // Len is `len(c)`.
@@ -309,9 +317,10 @@ func (o ChanOps[T]) Len() int {
 	if o.c == nil {
 		return 0
 	}
-	cs := x.chans[chanKey(o.c)]
-	if cs == nil {
-		return 0
+	cs := x.chanOf(chanKey(o.c), cap(o.c))
+	if a := active(); a != nil {
+		a.point(&pend{desc: "len " + cs.String()})
+		a.hbEvent(&cs.hb, kLen, uint64(len(cs.buf)))
 	}
 	return len(cs.buf)
 }
@@ -514,6 +523,7 @@ func Select(hasDefault bool, cases ...SelCase) int {
 	}
 	if len(ready) == 0 {
 		x.tracef("select: default")
+		x.hbEvent(nil, kSelDefault, 0)
 		return -1
 	}
 	k := ready[x.chooseFree(len(ready))]
